@@ -113,7 +113,7 @@ func (g *gen) newObject(extra []PropA, depth int) string {
 	g.objects = append(g.objects, KObj{Key: id})
 	idx := len(g.objects) - 1
 	props := append([]PropA{}, extra...)
-	n := g.r.Intn(4)
+	n := 2 + g.r.Intn(3) // at least two properties: a single-property cycle recurses for ever on non-mappings
 	used := map[string]bool{}
 	for _, p := range props {
 		used[p.Name] = true
@@ -163,7 +163,8 @@ func (g *gen) prop(name string, depth int) PropA {
 			p.Default = OptS{true, "true"}
 		case "list":
 			p.Default = OptS{true, "[]"}
-		case "map", "object", "ref", "scope":
+		case "map", "object", "scope":
+			// (no default on references: a defaulted property referring back to its own object expands for ever)
 			p.Default = OptS{true, "{}"}
 		}
 	}
